@@ -50,7 +50,9 @@ DeviationNames == {
     "SigOverwriteClosed",    \* set_*_description commits its signaling transition after close()
     "SendCheckThenPark",     \* a blocked sender checks the association state and only then creates notified()
     "GraceNotRearmed",       \* after one recovered ICE disconnect the grace timer is never armed again
-    "ExitDoesNotWake"        \* only close()/Drop of the transport wake a blocked sender, not the end of the association
+    "ExitDoesNotWake",       \* only close()/Drop of the transport wake a blocked sender, not the end of the association
+    "CloseLeavesOrphanChannels",  \* close() ends only channels of an existing association (via its run loop)
+    "GuardSkipsConnecting"   \* the SCTP cleanup guard ends Open channels only (a Connecting channel never sees Close)
 }
 
 Rule(p, e) == (p \in Props) => e
@@ -126,7 +128,8 @@ SPolled == (stask = "inline" /\ cp = "hs") \/ (stask = "spawned" /\ loops = "run
 \* cleanup guard of the SCTP run loop: every channel that is not closed yet sees Close once
 GuardEffect ==
     IF srun # "idle" /\ chan \in {"connecting", "open"}
-    THEN chan' = "closed" /\ closes' = closes + 1
+    THEN \/ chan' = "closed" /\ closes' = closes + 1
+         \/ "GuardSkipsConnecting" \in Deviations /\ chan = "connecting" /\ UNCHANGED <<chan, closes>>
     ELSE UNCHANGED <<chan, closes>>
 
 \* the handler's future (LoopsGuard, or the inline runner) is dropped: what is left of the transport loops is aborted;
@@ -277,16 +280,24 @@ A_SigLate ==
 
 CloseReason(k) == IF k = 3 THEN "Dropped" ELSE "LocalClose"
 
+\* close() on a connection without an SCTP transport object, or whose SCTP run loop has not been entered yet (its
+\* cleanup guard does not exist and the runner may be aborted unpolled): nobody else is certain to end the channels
+OrphanChannels ==
+    IF (sctp \in {"none", "taken"} \/ srun = "idle") /\ chan \in {"connecting", "open"}
+    THEN \/ chan' = "closed" /\ closes' = closes + 1
+         \/ "CloseLeavesOrphanChannels" \in Deviations /\ UNCHANGED <<chan, closes>>
+    ELSE UNCHANGED <<chan, closes>>
+
 A_Close1(k) ==
     /\ cl[k] = "begin"
     /\ IF peer = "Closed"
-       THEN cl' = [cl EXCEPT ![k] = "done"] /\ UNCHANGED reason
-       ELSE cl' = [cl EXCEPT ![k] = "pub"] /\
+       THEN cl' = [cl EXCEPT ![k] = "done"] /\ UNCHANGED reason /\ OrphanChannels
+       ELSE cl' = [cl EXCEPT ![k] = "pub"] /\ UNCHANGED <<chan, closes>> /\
             reason' = IF reason # "None" THEN reason
                       ELSE IF SctpReason(swhy) # "None" /\ sctp # "none" THEN SctpReason(swhy)
                       ELSE CloseReason(k)
     /\ UNCHANGED <<peer, sig, ap, iceT, sock, seenL, seenC, role, lp, cp, cval, cnext, dtls, dtask, dpermit,
-                   seenD, sctp, stask, srun, spermit, swhy, loops, chan, opened, closes, grace, handles,
+                   seenD, sctp, stask, srun, spermit, swhy, loops, opened, grace, handles,
                    dropped, calls, sendpc, peerAlive, alertIn, abortIn, shutdownIn, wfcLeft, fired, flapLeft, flapping>>
 
 A_Close2(k) ==
@@ -303,6 +314,7 @@ A_Close3(k) ==
     /\ IF sctp \notin {"none", "taken"}
        THEN sctp' = "taken" /\ spermit' = TRUE
        ELSE UNCHANGED <<sctp, spermit>>
+    /\ OrphanChannels
     \* notify_waiters(): reaches the sender if it is parked - or (intended design) registered before its check
     /\ sendpc' = IF sendpc = "parked" THEN "check"
                  ELSE IF sendpc = "prewait" /\ "SendCheckThenPark" \notin Deviations THEN "check"
@@ -310,7 +322,7 @@ A_Close3(k) ==
     /\ UNCHANGED calls
     /\ cl' = [cl EXCEPT ![k] = "dtls"]
     /\ UNCHANGED <<peer, sig, reason, ap, iceT, sock, seenL, seenC, role, lp, cp, cval, cnext, dtls, dtask,
-                   dpermit, seenD, stask, srun, swhy, loops, chan, opened, closes, grace, handles,
+                   dpermit, seenD, stask, srun, swhy, loops, opened, grace, handles,
                    dropped, peerAlive, alertIn, abortIn, shutdownIn, wfcLeft, fired, flapLeft, flapping>>
 
 A_Close4(k) ==
@@ -940,7 +952,11 @@ ReportsTerminal == (AnyFired /\ (LocalFired \/ ~peerAlive \/ iceT = "Closed")) ~
 LocalEndsClosed == LocalFired ~> [](peer = "Closed")
 
 \* pending API calls are answered
-NoHang == AnyFired ~> (calls = {})
+\* ... including a reader parked in DataChannel::recv(): after close()/drop, and once the association that carries the
+\* channel has ended, the channel's stream has ended
+ChannelEnds == /\ LocalFired ~> (chan \in {"none", "closed"})
+               /\ (srun = "exited") ~> (chan \in {"none", "closed"})
+NoHang == (AnyFired ~> (calls = {})) /\ ChannelEnds
 
 \* tasks and sockets are released once the application has closed or dropped the connection
 Released == LocalFired ~> Quiet
